@@ -177,8 +177,7 @@ def check_windows_sessions(repo, rep, tier="quick"):
 
 
 # ------------------------------------------------------------------ R2b partial candle count
-def check_partial(repo, rep, tier):
-    rid = "C07-R2b"
+def check_partial(repo, rep, tier, rid="C07-R2b"):
     rep.rule(rid, "partial candle published at a fill: the number of 1m candles aggregated is (minutes since the window start) + 1 "
                   "for every residue of the fill minute modulo the timeframe (enumerated per timeframe), where the windows are the "
                   "simulators' own (counted from the first stored candle) - also for 3D / 1W windows of a session that starts on a day "
@@ -193,8 +192,12 @@ def check_partial(repo, rep, tier):
     name_by_minutes = {v: k for k, v in {"3m": 3, "5m": 5, "15m": 15, "30m": 30, "45m": 45, "1h": 60, "2h": 120, "3h": 180, "4h": 240, "6h": 360, "8h": 480,
                                          "12h": 720, "1D": 1440, "3D": 4320, "1W": 10080}.items()}
     tail_bad = None
-    for tf, start_min, residues in cases:
+    for tf, start_min, residues, history in [c + (h,) for c in cases for h in ("minute-stored", "minute-not-stored-yet")]:
+        # minute-stored: the normal simulator has stored the minute before it matches it (add_candle replaces it by the partial candle);
+        # minute-not-stored-yet: the fast matcher publishes the partial candle of a minute the store has not seen (add_candle appends it)
         bad = None
+        if history == "minute-not-stored-yet" and tf > 60 and tier == "quick":
+            continue
         for k in residues:
             windows_before = 2
             count = windows_before * tf + k + 1                  # stored 1m candles, the executing one included
@@ -208,11 +211,19 @@ def check_partial(repo, rep, tier):
             stubs = W.base_stubs()
             stubs["jesse/services/candle.py:generate_candle_from_one_minutes"] = lambda i, a, kk, got=got: (got.append(a[1]), Arr([num(0)] + [A(f"g.{x}") for x in "ochlv"]))[1]
             it = Interp(repo, stubs=stubs)
-            storage = Obj("DynamicNumpyArray", name="storage-1m", attrs={"__len__": BoundBuiltin(lambda i, a, kk, c=count: num(c))})
+            # the model store is stateful: the number of stored 1m candles and what get_candles returns follow add_candle
+            state = {"n": len(rows) if history == "minute-stored" else len(rows) - 1}
+            off = count - len(rows)
+            storage = Obj("DynamicNumpyArray", name="storage-1m", attrs={"__len__": BoundBuiltin(lambda i, a, kk, st=state, off=off: num(off + st["n"]))})
             cs = Obj("CandlesState", name="store.candles", attrs={}, open_world=True)
             W.bind(cs, "get_storage", lambda i, a, kk, st_=storage: st_)
-            W.bind(cs, "get_candles", lambda i, a, kk, st_=stored: st_)
-            W.bind(cs, "add_candle", lambda i, a, kk: None)
+            W.bind(cs, "get_candles", lambda i, a, kk, st=state, rows=rows: Arr2(rows[:st["n"]]))
+
+            def add_candle(i, a, kk, st=state, rows=rows):
+                tf_arg = a[3] if len(a) > 3 else kk.get("timeframe")
+                if tf_arg == "1m":
+                    st["n"] = len(rows)          # the executing minute is in the store now (appended or replaced)
+            W.bind(cs, "add_candle", add_candle)
             it.overrides[f"{W.STORE}:store"] = Obj("StoreClass", name="store", attrs={"candles": cs}, open_world=True)
             route = {"timeframe": name_by_minutes[tf], "exchange": "Sandbox", "symbol": "BTC-USDT"}
             it.overrides["jesse/routes/__init__.py:router"] = Obj("RouterClass", name="router", attrs={"all_formatted_routes": [route], "formatted_routes": [route]}, open_world=True)
@@ -231,10 +242,11 @@ def check_partial(repo, rep, tier):
                 tail_bad = (tf, k)
         if bad:
             aligned = start_min % tf == 0
-            rep.violation(rid, "partial|count" + ("" if aligned else "|session-start-not-on-the-epoch-grid"),
+            rep.violation(rid, "partial|count" + ("" if aligned else "|session-start-not-on-the-epoch-grid") + ("" if history == "minute-stored" else "|fast"),
                           f"partial {name_by_minutes[tf]} candle at minute {bad[0]} of its window aggregates {bad[1]!r} one-minute candles, expected {bad[0] + 1}"
+                          + ("" if history == "minute-stored" else " (history: the store has not seen the executing minute yet - the fast matcher; the count must be taken after the partial 1m candle is stored)")
                           + ("" if aligned else f" (session start = day {start_min // day} since the epoch, which is not a multiple of the timeframe: the windows are counted from the first candle)"))
-        rep.instance(rid, f"tf={tf}|start={start_min}", {"timeframe_minutes": tf, "residues": len(residues)})
+        rep.instance(rid, f"tf={tf}|start={start_min}|{history}", {"timeframe_minutes": tf, "residues": len(residues), "history": history})
     # the aggregated slice is the tail of the stored 1m candles of that length
     if tail_bad:
         rep.violation(rid, "partial|tail", f"partial candle ({name_by_minutes[tail_bad[0]]}, minute {tail_bad[1]} of its window) is not generated from the LAST stored 1m candles")
